@@ -222,9 +222,9 @@ class MultiAgent(Case):
     assumptions = ("done flags are 0/1",)
     site = "MultiAgentReplayBuffer"
 
-    def __init__(self, N, pre, w, A=2, B=2, vect=True, mixed=False):
-        self.N, self.pre, self.w, self.A, self.B, self.vect, self.mixed = N, pre, w, A, B, vect, mixed
-        self.name = f"marb-N{N}-pre{pre}-w{w}-A{A}-B{B}" + ("" if vect else "-single") + ("-mixed-key-order" if mixed else "")
+    def __init__(self, N, pre, w, A=2, B=2, vect=True, mixed=False, resample=False):
+        self.N, self.pre, self.w, self.A, self.B, self.vect, self.mixed, self.resample = N, pre, w, A, B, vect, mixed, resample
+        self.name = f"marb-N{N}-pre{pre}-w{w}-A{A}-B{B}" + ("" if vect else "-single") + ("-mixed-key-order" if mixed else "") + ("-sample-add-sample" if resample else "")
         self.bounds = {"capacity": N, "single_saves_before": pre, "vectorised_width": w, "agents": A, "batch": B,
                        "symbolic": "payload of every (transition, field, agent); sampled positions"}
 
@@ -301,7 +301,85 @@ class MultiAgent(Case):
                     for j in range(1, len(kept)):
                         exp = [ite(eq(pos[k], j), x, y) for x, y in zip(kept[j][f][a], exp)]
                     obs.append(Ob(f"sample/{f}/{a}/row{k}-is-transition-pos{k}", all_eq(ten[k], exp)))
+        if self.resample:
+            # a later addition, then a second sample: it draws from what the buffer holds NOW (the last N), not from an earlier view
+            p = payload("late")
+            buf.save_to_memory(*[p[f] for f in fields], is_vectorised=False)
+            log.append({f: {a: elems(p[f][a]) for a in ids} for f in fields})
+            kept2 = log[max(0, len(log) - N):]
+            obs.append(Ob("second/len", len(buf) == min(N, len(log))))
+            del pos[:]
+            pos += [v.int(f"pos2_{k}") for k in range(B)]
+            for k, x in enumerate(pos):
+                v.assume(conj(x >= 0, x < len(kept2)))
+                for y in pos[:k]:
+                    v.assume(neg(eq(x, y)) if v.mode == "sym" else x != y)
+            out2 = buf.sample(B)
+            for fi, f in enumerate(fields):
+                for a in ids:
+                    ten = out2[fi][a]
+                    for k in range(B):
+                        exp = kept2[0][f][a]
+                        for j in range(1, len(kept2)):
+                            exp = [ite(eq(pos[k], j), x, y) for x, y in zip(kept2[j][f][a], exp)]
+                        obs.append(Ob(f"second-sample/{f}/{a}/row{k}-is-a-transition-held-now", all_eq(ten[k], exp), site=self.site + "/sample-after-later-additions"))
         return obs
+
+
+class TransitionBuild(Case):
+    """Transition(...).to_tensordict() for vector, dict and tuple observations - the row the training loops hand to
+    ReplayBuffer.add: every field is the field it was built from (next_obs is not obs)"""
+    stubs = ("agilerl.utils.algo_utils.torch -> ShimTorch (sym modes)",)
+    site = "Transition.__post_init__"
+
+    def __init__(self, kind):
+        from agilerl.components.data import Transition
+        self.kind = kind
+        self.functions = (Transition.__post_init__,)
+        self.name = f"transition-build-{kind}-obs"
+        self.bounds = {"observation": kind, "symbolic": "every element of obs, next_obs, action, reward; the done flag"}
+
+    def run(self, v):
+        from agilerl.components.data import Transition
+        import agilerl.components.data as data_mod
+        import agilerl.utils.algo_utils as au_
+
+        def ob(tag):
+            # (observation components as tensors: TensorDict keeps numpy OBJECT arrays as opaque non-tensor data)
+            if self.kind == "vector":
+                return v.tensor(f"{tag}", (2,))
+            if self.kind == "dict":
+                return {"vec": v.tensor(f"{tag}_vec", (2,)), "img": v.tensor(f"{tag}_img", (1, 2))}
+            return (v.tensor(f"{tag}_0", (2,)), v.tensor(f"{tag}_1", (1,)))
+
+        o, no = ob("obs"), ob("next")
+        act, rew, done = v.array("act", (1,)), v.real("rew"), v.flag("done")
+        patches = []
+        if v.mode != "real":
+            patches = [(au_, "torch", ShimTorch()), (data_mod, "torch", ShimTorch())] if hasattr(data_mod, "torch") else [(au_, "torch", ShimTorch())]
+        with patched(*patches):
+            tr = Transition(obs=o, action=act, next_obs=no, reward=np.float32(rew) if v.mode == "real" else rew, done=done)
+            out = tr.to_tensordict().unsqueeze(0)          # what the training loops hand to ReplayBuffer.add (the ring step is the ring-* cases' subject)
+            out.batch_size = [1]
+
+        def flat(x):
+            if isinstance(x, dict):
+                return [e for k in sorted(x) for e in elems(x[k])]
+            if isinstance(x, tuple):
+                return [e for y in x for e in elems(y)]
+            return list(elems(x))
+
+        def flat_td(x):
+            if hasattr(x, "keys") and not isinstance(x, (torch.Tensor,)):
+                return [e for k in sorted(x.keys()) for e in elems(x[k][0])]
+            return list(elems(x[0]))
+
+        res = []
+        for name, src in (("obs", o), ("next_obs", no)):
+            got, want = flat_td(out[name]), flat(src)
+            res.append(Ob(f"{name}/stored-and-sampled-as-built", len(got) == len(want) and conj(*[eq(a, b) for a, b in zip(got, want)]), site=self.site + "/" + name))
+        res.append(Ob("action-reward-done/stored-and-sampled-as-built", conj(eq(elems(out["action"][0])[0], act[0]), eq(elems(out["reward"][0])[0], rew), eq(elems(out["done"][0])[0], done)), site=self.site))
+        return res
 
 
 def cases(tier):
@@ -310,8 +388,9 @@ def cases(tier):
           RingBase(3, 2, 2), RingBase(4, 1, 4), RingBase(2, 2, 1),
           UniformSample(3, 2), UniformSample(4, 2),
           MultiAgent(3, 2, 2), MultiAgent(4, 1, 2), MultiAgent(2, 3, 0, vect=False), MultiAgent(3, 0, 3, A=3),
-          MultiAgent(3, 1, 2, mixed=True), MultiAgent(2, 2, 0, vect=False, mixed=True)]
+          MultiAgent(3, 1, 2, mixed=True), MultiAgent(2, 2, 0, vect=False, mixed=True), MultiAgent(2, 2, 0, vect=False, resample=True),
+          TransitionBuild("vector"), TransitionBuild("dict"), TransitionBuild("tuple")]
     if tier == "thorough":
         cs += [RingStep(N, n) for N in (6, 8, 12) for n in (1, 2, N - 1, N)]
-        cs += [RingBase(6, 4, 5), UniformSample(5, 3), UniformSample(6, 2), MultiAgent(4, 3, 3, A=3, B=3), MultiAgent(4, 1, 3, A=3, B=2, mixed=True)]
+        cs += [RingBase(6, 4, 5), UniformSample(5, 3), UniformSample(6, 2), MultiAgent(4, 3, 3, A=3, B=3), MultiAgent(4, 1, 3, A=3, B=2, mixed=True), MultiAgent(3, 1, 2, resample=True)]
     return cs
